@@ -160,7 +160,34 @@ def c_history(ctx, args):
     return history.reused_object_history(ctx, kind, n, seed, steps, which)
 
 
-CHECKS = {'density': __import__('props.C19', fromlist=['c_density']).c_density, 'duality_corr': c_duality_corr, 'to_state_dense': c_to_state_dense, 'ctor': c_ctor, 'stab_state': c_stab_state, 'history': c_history}
+def c_set_r(ctx, args):
+    """rank bookkeeping: set_r(k) declares the first k stabilizer rows inactive (log2 rank k), set_r() and set_r(None) mean the documented default 0 (a pure state),
+    whatever the rank was before; the rows are untouched; to_state(r) is to_state().set_r(r)"""
+    be, m, r0, r1 = args
+    M = impl_mod(be)
+    n = len(m) // 2
+    st = M.CM(m).to_state(r0)
+    rows = M.oPL(st)
+    out = []
+    for arg in ('none', 'None', r1, 0):
+        s2 = st.copy()
+        ret = s2.set_r() if arg == 'none' else (s2.set_r(None) if arg == 'None' else s2.set_r(arg))
+        want_r = 0 if arg in ('none', 'None') else arg
+        if int(s2.r) != want_r or M.oPL(s2) != rows or ret is not s2:
+            return {'kind': 'oracle', 'where': '%s:set_r(%s) on a state of rank %d' % (be, {'none': '', 'None': 'None'}.get(arg, arg), r0), 'observed': [int(s2.r), ret is s2], 'expected': [want_r, True], 'tags': ['set_r']}
+    if M.oST(M.CM(m).to_state(r1)) != [rows, r1]:
+        return {'kind': 'oracle', 'where': be + ':to_state(r) is not to_state().set_r(r)', 'observed': M.oST(M.CM(m).to_state(r1)), 'expected': [rows, r1], 'tags': ['set_r']}
+    return None
+
+
+def impl_mod(be):
+    if be == 'np':
+        return NP
+    import vlib.impl_torch as TT
+    return TT
+
+
+CHECKS = {'set_r': c_set_r, 'density': __import__('props.C19', fromlist=['c_density']).c_density, 'duality_corr': c_duality_corr, 'to_state_dense': c_to_state_dense, 'ctor': c_ctor, 'stab_state': c_stab_state, 'history': c_history}
 
 
 def run(ctx):
@@ -178,6 +205,9 @@ def run(ctx):
         for sd in range(3):
             do(ctx, 'ctor', ['bit', n, sd], nontrivial=('bit', n, sd))
             do(ctx, 'ctor', ['rpauli', n, sd], nontrivial=('rp', n, sd))
+    for it in range(int(30 * B)):
+        n = rng.randint(1, 4)
+        do(ctx, 'set_r', [['np', 'torch'][it % 2], gen.rmap(rng, ctx.model, n), rng.randint(0, n), rng.randint(0, n)], nontrivial=('sr', it))
     # the exported density matrix (PauliPolynomial form): every product of the active stabilizers once, weight 2^-N -- both backends, small groups and groups of 8..12 generators
     for it in range(int(30 * B)):
         n = rng.randint(1, 5)
